@@ -16,15 +16,16 @@ MGR_OPS = {"enter_context": False, "push_mgr": False, "enter_async_context": Tru
 
 
 def plain(a):
-    return {"k": "plain", "async": a, "yf": False, "body": [], "ops": [], "popped": 0, "suspend": False}
+    return {"k": "plain", "async": a, "yf": False, "bp": False, "body": [], "ops": [], "popped": 0, "suspend": False}
 
 
-def gcm(a, body, yf=False):
-    return {"k": "gcm", "async": a, "yf": yf, "body": body, "ops": [], "popped": 0, "suspend": False}
+def gcm(a, body, yf=False, bp=False):
+    """bp: made by the async_generator backport (asynccontextmanager over an @async_generator function)"""
+    return {"k": "gcm", "async": a, "yf": yf, "bp": bp, "body": body, "ops": [], "popped": 0, "suspend": False}
 
 
 def stack(a, ops):
-    return {"k": "stack", "async": a, "yf": False, "body": [], "ops": ops, "popped": 0, "suspend": False}
+    return {"k": "stack", "async": a, "yf": False, "bp": False, "body": [], "ops": ops, "popped": 0, "suspend": False}
 
 
 def op(name, node=None):
@@ -53,6 +54,8 @@ def level1():
             out.append(gcm(False, body, yf))
     for body in itertools.chain([[]], ([x] for x in (ps, pa)), ([x, y] for x in (ps, pa) for y in (ps, pa))):
         out.append(gcm(True, body))
+    for body in ([], [ps], [pa], [pa, ps]):
+        out.append(gcm(True, body, bp=True))
     return out
 
 
